@@ -5,7 +5,8 @@ cd "$(dirname "$0")"
 export GOFLAGS=-mod=mod GOPROXY=off GOSUMDB=off GOTOOLCHAIN=local CGO_ENABLED=${CGO_ENABLED:-1}
 B="${VERIF_BUILD:-$PWD/.build}"
 mkdir -p "$B"
-python3 driver/overlay.py "$B/overlay" >/dev/null || exit 2
+(cd tools/yieldgen && go1.26.8 build -o "$B/yieldgen" . 2>"$B/build.log") || { cat "$B/build.log" >&2; exit 2; }
+VERIF_YIELDGEN="$B/yieldgen" python3 driver/overlay.py "$B/overlay" >/dev/null || exit 2
 cd sim
 # VERIF_REPO (default /repo): build against another tree (scratch worktree with a seeded change, or a
 # snapshot for background sweeps) without touching /repo.  Registered checks never set it.
@@ -17,6 +18,6 @@ fi
 out="$B/htsim.test"
 extra=""
 if [ "${1:-}" = "race" ]; then out="$B/htsim.race.test"; extra="-race"; fi
-go1.26.8 test -c $modflag $extra -tags verif -overlay "$B/overlay/overlay.json" -o "$out.new" . 2>"$B/build.log" || { cat "$B/build.log" >&2; exit 2; }
+go1.26.8 test -c -vet=off -ldflags=-checklinkname=0 $modflag $extra -tags verif -overlay "$B/overlay/overlay.json" -o "$out.new" . 2>"$B/build.log" || { cat "$B/build.log" >&2; exit 2; }
 mv -f "$out.new" "$out"
 exit 0
